@@ -1,6 +1,7 @@
 from core import Case, hexs
 from gen_util import *
 PID = "C06"
+SOURCE_TIE = ["tie_hotp_table", "tie_hotp_offset", "tie_hotp_return", "tie_hotp_bin", "shl_masked", "wadd_small"]   # coq_tie/Tie_Source.v against Gen_Source.v regenerated from /repo on every run
 DRIVER = "drv_pure"
 RULE = ("get_hotp_code / get_totp_code_at / get_totp_code (interposed clock) on five key-container forms and detail::hotp_from_digest vs the models; "
         "counters with every byte set, 2^32 / 2^63 / 2^64-1 boundaries, digits 1..9, periods 1..INT_MAX, timestamps across all 64 bits, synthetic "
